@@ -333,6 +333,50 @@ pub fn replay(w: &World, beh: &Value) -> Value {
                 }
             }
         }
+        "c2s_s2c" => {
+            // cipher -> shares -> cipher on the same participants, followed by a key generation: the common tape must stay in step
+            let sampler = BFVShareSampler::new(w.ctx.clone());
+            let se = BFVSimdShareEncoder::new(w.ctx.clone());
+            let all_to_one: Vec<Value> = (2..=n).map(|f| json!({"a": "deliver", "f": f, "t": 1, "ok": true})).chain((1..=n).map(|i| json!({"a": "finish", "f": i, "t": i, "ok": true}))).collect();
+            let shares: Vec<Vec<u64>> = {
+                let mut protos: Vec<Option<_>> = parts.iter().map(|p| Some(p.cipher_to_shares(cipher.clone(), &sampler, &se))).collect();
+                STAR_NO_SEND.with(|s| s.set(true));
+                let (outs, problem) = run_round!(protos, all_to_one, send, receive, |p: heathcliff::multiparty::participant::CipherToSharesProtocol<Vec<u64>>| p.finish(&se));
+                STAR_NO_SEND.with(|s| s.set(false));
+                if let Some(p) = problem {
+                    return viol("round", p);
+                }
+                outs.into_iter().map(|o| o.unwrap().unwrap()).collect()
+            };
+            let back = {
+                let mut protos: Vec<Option<_>> = parts.iter_mut().zip(shares.iter()).map(|(p, s)| Some(p.shares_to_cipher(s, &se))).collect();
+                SKIP_NONAGG_FINISH.with(|s| s.set(true));
+                let (outs, problem) = run_round!(protos, steps, send, receive, |p: heathcliff::multiparty::participant::KeySwitchProtocol| p.finish());
+                SKIP_NONAGG_FINISH.with(|s| s.set(false));
+                if let Some(p) = problem {
+                    return viol("round", p);
+                }
+                outs.into_iter().next().unwrap()
+            };
+            if let Some(Ok(c)) = back {
+                if let Err(e) = decrypt_check(w, &sk_sum, &c, &want) {
+                    return viol("plaintext", format!("cipher -> shares -> cipher does not preserve the plaintext: {}", e));
+                }
+            }
+            // a later key generation on the same participants still agrees
+            let all: Vec<Value> = (1..=n).flat_map(|f| (1..=n).filter(move |t| *t != f).map(move |t| json!({"a": "deliver", "f": f, "t": t, "ok": true}))).chain((1..=n).map(|i| json!({"a": "finish", "f": i, "t": i, "ok": true}))).collect();
+            let mut protos: Vec<Option<_>> = parts.iter_mut().map(|p| Some(p.generate_public_key())).collect();
+            let (outs, problem) = run_round!(protos, all, send, receive, |p: heathcliff::multiparty::participant::PublicKeyGenerationProtocol| p.finish());
+            if let Some(p) = problem {
+                return viol("round", p);
+            }
+            let done: Vec<&PublicKey> = outs.iter().filter_map(|o| o.as_ref().and_then(|r| r.as_ref().ok())).collect();
+            for pk in &done {
+                if pk.data() != done[0].data() {
+                    return viol("agreement", "after a cipher->shares round the parties derive different collective public keys (common random tape out of step)".into());
+                }
+            }
+        }
         "s2c" => {
             let se = BFVSimdShareEncoder::new(w.ctx.clone());
             let shares: Vec<Vec<u64>> = (0..n).map(|i| (0..w.ps.n as u64).map(|j| (j * 3 + i as u64 * 7 + 1) % w.ps.t).collect()).collect();
